@@ -14,8 +14,9 @@ for d in dirs:
     if len(summ) > 170: summ = summ[:167] + "..."
     summ = summ.replace("|", "/")
     out = " ".join(str(m.get("outcome", "")).split()).replace("|", "/")
-    rows.append("| %s | %s | %s | %s |" % (d, files, summ, out))
-tbl = "| change | files | summary | outcome (`./check <id>`) |\n|---|---|---|---|\n" + "\n".join(rows) + "\n"
+    fin = " ".join(str(m.get("regression_final", "")).split()).replace("|", "/")
+    rows.append("| %s | %s | %s | %s | %s |" % (d, files, summ, out, fin))
+tbl = "| change | files | summary | outcome (`./check <id>`; first run and what was added) | final regression run of all changes against the final checks |\n|---|---|---|---|---|\n" + "\n".join(rows) + "\n"
 p = os.path.join(V, "DESIGN.md")
 s = open(p).read()
 a, b = "<!-- seedtable:begin -->\n", "<!-- seedtable:end -->\n"
